@@ -289,6 +289,12 @@ def expand(hist, scen, fam, aggs, salt, remote_restart, prof=""):
             need(a["d"])
         if op == "predict":
             a.setdefault("agg", "None")
+        if op == "load" and fam in ("daily", "billing"):
+            # daily / billing: C01 demands the prediction that the documented formula gives "from the JSON parameters alone" - parameters are
+            # named members, and a JSON object is unordered: the document may come back with its members in another order (a key-sorting
+            # serialiser, a jsonb column).  The hourly reader takes the feature scaler's entries by position (a reordered document of a solar
+            # model predicts other values); the statement does not reach that far, so hourly / CalTRACK documents are read as written.
+            a["form"] = r.choice(["written", "written", "sorted", "reversed"])
         out.append(a)
     return out
 
